@@ -9,6 +9,8 @@
      {"ev":"end","got":..,"left":..}
    and, for the prefix formulation, one line per (frame, prefix length):
      {"ev":"prefix","unit":..,"len":L,"k":k,"out":..,"need":..,"n":..}
+   and, for payload sizes around the capacity of the length field, one line per composed (or refused) record:
+     {"ev":"sender","unit":..,"size":payload,"out":"ok"|error,"len":composed length,"head":[first bytes]}
    The model state is Stream's (dlv, cons, got, want); the parser outcome is the LOGGED
    one; TLC checks the contract and the Stream invariants at every step. *)
 EXTENDS Framing, Json, IOUtils, TLC, TLCExt
@@ -81,7 +83,15 @@ Prefix == /\ T[l].ev = "prefix"
                             <<"BAD", IF e.need < 1 THEN "need-below-one" ELSE "over-ask", l, 0>>)
           /\ l' = l + 1 /\ UNCHANGED <<beg, dlv, cons, got, want>>
 
-Next == l <= Len(T) /\ (Begin \/ Deliver \/ Try \/ End \/ Prefix)
+\* sender side, at the limits of the length field: a record the composer lets out declares its own length
+\* (a payload that does not fit the field must be refused, not written with a wrapped-around length)
+Sender == /\ T[l].ev = "sender"
+          /\ LET e == T[l] IN
+             Report(e.out # "ok" \/ Len(e.head) < HeaderSize(e.unit, e.head) \/ DeclaredLen(e.unit, e.head) = e.len,
+                    <<"BAD", "declared-length", l, 0>>)
+          /\ l' = l + 1 /\ UNCHANGED <<beg, dlv, cons, got, want>>
+
+Next == l <= Len(T) /\ (Begin \/ Deliver \/ Try \/ End \/ Prefix \/ Sender)
 Spec == Init /\ [][Next]_vars
 \* Stream's invariant, evaluated on every state of every real run
 NoOverAsk == beg = 0 \/ got >= Len(T[beg].frames) \/ cons + want <= SumTo(T[beg].frames, got + 1)
